@@ -127,14 +127,39 @@ static void rp_round(RegP *p, hsnk *sk, halloc *ha)
 
 void run_rp(const char *op)
 {
-    if (!strcmp(op, "rp.serve")) {
-        /* serial mem16 soct blocksize l:allocscript h:stream l:verdicts */
+    if (!strcmp(op, "rp.serve") || !strcmp(op, "rp.corrupt")) {
+        /* rp.serve   serial mem16 soct blocksize l:allocscript h:stream l:verdicts
+           rp.corrupt serial mem16 soct blocksize l:bits        h:raw    l:verdicts
+             (the raw frame with the listed bits flipped - bit i is bit i%8, counted from the least significant, of
+              octet i/8 - is framed for the transport and served) */
         bool serial = aN(0) != 0, mem16 = aN(1) != 0;
+        bool corrupt = !strcmp(op, "rp.corrupt");
         uint64_t bs = aN(3);
         if (bs <= sizeof(RPFrame) || bs > (1u << 20)) { out_s("skip"); return; }
-        hsrc ss; Source src; h_src_make(&ss, &src, aN(2) != 0, aH(5), aHlen(5), -1);
+        unsigned char *stream = aH(5); size_t slen = aHlen(5);
+        unsigned char *built = NULL;
+        if (corrupt) {
+            for (size_t i = 0; i < aLlen(4); i++) if (aLu(4, i) >= 8 * slen) { out_s("skip"); return; }
+            unsigned char *raw = malloc(slen ? slen : 1); memcpy(raw, stream, slen);
+            for (size_t i = 0; i < aLlen(4); i++) raw[aLu(4, i) / 8] ^= (unsigned char)(1u << (aLu(4, i) % 8));
+            built = malloc(2 * slen + 16); size_t n = 0;
+            if (serial) {
+                for (size_t i = 0; i < slen; i++) {
+                    if (raw[i] == 0xc0) { built[n++] = 0xdb; built[n++] = 0xdc; }
+                    else if (raw[i] == 0xdb) { built[n++] = 0xdb; built[n++] = 0xdd; }
+                    else built[n++] = raw[i];
+                }
+                built[n++] = 0xc0;
+            } else {
+                size_t v = slen;
+                do { unsigned char d = v & 0x7f; v >>= 7; built[n++] = d | (v ? 0x80 : 0); } while (v);
+                memcpy(built + n, raw, slen); n += slen;
+            }
+            free(raw); stream = built; slen = n;
+        }
+        hsrc ss; Source src; h_src_make(&ss, &src, aN(2) != 0, stream, slen, -1);
         hsnk sk; Sink snk; h_snk_make(&sk, &snk, false, -1);
-        halloc ha; BlockAllocator ba; ha_make(&ha, &ba, (size_t)bs, 4);
+        halloc ha; BlockAllocator ba; ha_make(&ha, &ba, (size_t)bs, corrupt ? -1 : 4);
         g_be.arg = 6; g_be.pos = 0; g_be.mem16 = mem16;
         RegP p; rp_setup(&p, serial, mem16, src, snk, &ba);
         int rounds = 0;
@@ -144,7 +169,7 @@ void run_rp(const char *op)
             rounds++;
         }
         out_s("#"); out_n(ha.nlive);
-        ha_done(&ha); h_src_free(&ss); h_snk_free(&sk);
+        ha_done(&ha); h_src_free(&ss); h_snk_free(&sk); free(built);
     } else if (!strcmp(op, "rp.emit")) {
         /* serial mem16 seq kind ftype fseq addr n val h:payload */
         bool serial = aN(0) != 0, mem16 = aN(1) != 0;
